@@ -13,52 +13,53 @@ structure PathOrd (P : Type) [DecidableEq P] where
   /-- descendants of d are contiguous right after d -/
   interval : ∀ d x y, lt d x = true → lt x y = true → under d y = true → under d x = true
 
-variable {P : Type} [DecidableEq P]
+variable {P : Type} [DecidableEq P] {I : Type} [DecidableEq I]
 
-structure Ent (P : Type) where
+structure Ent (P I : Type) where
   path : P
   isDir : Bool
-  id : Nat            -- stands for the identity tuple (mode, uid, …); `same` compares it
+  id : I              -- the identity tuple (mode, uid, …) as `sameFile` sees it; `same` compares it
 deriving DecidableEq
 
-inductive Ev (P : Type)
-  | add (e : Ent P)
-  | modify (e : Ent P)
+inductive Ev (P I : Type)
+  | add (e : Ent P I)
+  | modify (e : Ent P I)
   | delete (p : P)
 
-def same (a b : Ent P) : Bool := a.isDir == b.isDir && a.id == b.id
+def same (a b : Ent P I) : Bool := a.isDir == b.isDir && a.id == b.id
 
-/-- the merge loop of doubleWalkDiff; `rm` is the `rmdir` variable (none = "") -/
-def diff (O : PathOrd P) : Nat → List (Ent P) → List (Ent P) → Option P → List (Ev P)
+/-- the merge loop of doubleWalkDiff; `rm` is the `rmdir` variable (none = "");
+`fc` ("force") = differ is DiffNone: `sameFile` answers false for every pair -/
+def diff (O : PathOrd P) (fc : Bool) : Nat → List (Ent P I) → List (Ent P I) → Option P → List (Ev P I)
   | 0, _, _, _ => []
   | _+1, [], [], _ => []
-  | n+1, [], u :: us, _ => .add u :: diff O n [] us none
+  | n+1, [], u :: us, _ => .add u :: diff O fc n [] us none
   | n+1, l :: ls, [], rm =>
     match rm with
-    | some d => if O.under d l.path then diff O n ls [] rm
-                else .delete l.path :: diff O n ls [] none
-    | none => .delete l.path :: diff O n ls [] (if l.isDir then some l.path else none)
+    | some d => if O.under d l.path then diff O fc n ls [] rm
+                else .delete l.path :: diff O fc n ls [] none
+    | none => .delete l.path :: diff O fc n ls [] (if l.isDir then some l.path else none)
   | n+1, l :: ls, u :: us, rm =>
     if O.lt l.path u.path then
       match rm with
-      | some d => if O.under d l.path then diff O n ls (u :: us) rm
-                  else .delete l.path :: diff O n ls (u :: us) none
-      | none => .delete l.path :: diff O n ls (u :: us) (if l.isDir then some l.path else none)
+      | some d => if O.under d l.path then diff O fc n ls (u :: us) rm
+                  else .delete l.path :: diff O fc n ls (u :: us) none
+      | none => .delete l.path :: diff O fc n ls (u :: us) (if l.isDir then some l.path else none)
     else if O.lt u.path l.path then
-      .add u :: diff O n (l :: ls) us none
+      .add u :: diff O fc n (l :: ls) us none
     else
       let rm' := if l.isDir && !u.isDir then some l.path else none
-      if same l u then diff O n ls us rm' else .modify u :: diff O n ls us rm'
+      if !fc && same l u then diff O fc n ls us rm' else .modify u :: diff O fc n ls us rm'
 
-abbrev TMap (P : Type) := P → Option (Ent P)
+abbrev TMap (P I : Type) := P → Option (Ent P I)
 
-def applyEv (O : PathOrd P) (t : TMap P) : Ev P → TMap P
+def applyEv (O : PathOrd P) (t : TMap P I) : Ev P I → TMap P I
   | .delete p => fun q => if q = p ∨ O.under p q then none else t q
   | .add e | .modify e => fun q =>
       if q = e.path then some e
       else if O.under e.path q && (match t e.path with | some o => o.isDir != e.isDir | none => false) then none
       else t q
 
-def toMap (l : List (Ent P)) : TMap P := fun q => l.find? (·.path = q)
+def toMap (l : List (Ent P I)) : TMap P I := fun q => l.find? (·.path = q)
 
 end Fsm.D
